@@ -10,8 +10,8 @@ ids=${@:-$(ls /verif/seeded)}
 fail=0
 for id in $ids; do
   pid=$(echo $id | cut -d- -f1)
-  git -C $S/repo checkout -q -- . ; git -C $S/repo clean -fdq
-  if ! git -C $S/repo apply --3way /verif/seeded/$id/patch.diff 2>/dev/null && ! git -C $S/repo apply /verif/seeded/$id/patch.diff 2>/dev/null; then
+  git -C $S/repo reset -q --hard; git -C $S/repo clean -fdq
+  if ! git -C $S/repo apply /verif/seeded/$id/patch.diff 2>/dev/null; then
     echo "$id: PATCH-DOES-NOT-APPLY (the repaired tree moved on)"; continue; fi
   (cd $S/verif && MOUETTE_REPO=$S/repo ./check $pid > $S/$id.log 2>&1); rc=$?
   v=$(grep -c '^VIOLATION' $S/$id.log)
